@@ -38,9 +38,11 @@ TRUSTED = ['hand-written model programs Model/ProxProg.lean (tied by running the
 ASSUMPTIONS = ['identity aliasing only (overlapping views of distinct objects are outside C10)',
                'element-wise functions, norms, proj_simplex, Lambert-W are uninterpreted in the '
                'theorems; the driver instantiates them with IEEE double implementations',
-               'wrappers built by operator arithmetic are covered by the combinator theorem '
-               '(C10.alias_safe_tree) for leaves that satisfy the leaf contract; for leaf classes '
-               'without a model program the contract is only tested']
+               'wrappers built by operator arithmetic are covered by the combinator theorems '
+               '(C10.alias_safe_tree; C10.diagonal_alias_safe for combine_proximals) for leaves that '
+               'satisfy the leaf contract; for leaf classes without a model program the contract is '
+               'only tested; their model-vs-code comparison (trees and DiagonalOperator over proximal '
+               'leaves, aliased mode) is part of the C03 run']
 
 NAN_BITS = 0x7ff8000000000000
 
@@ -280,9 +282,10 @@ def same(a, b, tol):
 
 
 def junk_vals(n):
-    """Finite garbage for a non-aliased `out` (C10 is about finite data; NaN-prefilled outputs
-    belong to C03, where `out.set_zero()` of ProximalL2 is a recorded finding)."""
-    return np.array([(-1) ** k * (12345.678 + 1e6 * k) for k in range(n)], dtype=float)
+    """Previous content of a non-aliased `out`: NaN, so that any read of `out` before it is
+    written shows up (since /repo 82e7c58 `set_zero` writes exact zeros; the theorems use no
+    arithmetic law, so they cover NaN junk)."""
+    return np.full(n, np.nan)
 
 
 def closure_var(P, name, default):
@@ -333,7 +336,7 @@ def oracle(ctx, key, desc, P, x_elem, space, tol, second=None, frames=()):
             problems.append('P(x) raises ({}) but an in-place call succeeds'.format(st['oop']))
         return res, problems
     ref = res['oop'][1]
-    for mode, what in (('junk', 'P(x, out=z) with garbage-filled z'),
+    for mode, what in (('junk', 'P(x, out=z) with NaN-filled z'),
                        ('alias', 'y = x.copy(); P(y, out=y)')):
         if st[mode] != 'ok':
             problems.append('{} raises {}'.format(what, st[mode]))
